@@ -135,9 +135,10 @@ Definition same_args (a b : kcall * list Z) : bool :=
   end.
 Definition holds_ckinds (c : kcase) : bool :=
   let ces := with_eff (kc_objs c) [] (kc_calls c) in
-  if forallb (fun ce => encodable (as_ccase (kc_fmt c) (fst ce) (snd ce))) ces
-  then forallb (fun ce => one_ok (as_ccase (kc_fmt c) (fst ce) (snd ce)) (k_obs (fst ce))) ces &&
-       (* identical bytes for equal arguments, whatever the strategy / the position in the history *)
-       forallb (fun a => forallb (fun b => implb (same_args a b)
-                  (list_eqb bytes_eqb (co_chunks (k_obs (fst a))) (co_chunks (k_obs (fst b))))) ces) ces
-  else true.
+  (* a call whose data or pad value cannot be encoded is refused: the property says nothing about THAT call (the
+     later calls on the same object are still held to it) *)
+  let enc ce := encodable (as_ccase (kc_fmt c) (fst ce) (snd ce)) in
+  forallb (fun ce => implb (enc ce) (one_ok (as_ccase (kc_fmt c) (fst ce) (snd ce)) (k_obs (fst ce)))) ces &&
+  (* identical bytes for equal arguments, whatever the strategy / the position in the history *)
+  forallb (fun a => forallb (fun b => implb (enc a && enc b && same_args a b)
+             (list_eqb bytes_eqb (co_chunks (k_obs (fst a))) (co_chunks (k_obs (fst b))))) ces) ces.
